@@ -1,5 +1,5 @@
 // C39: aggregate chunk encoding round-trips for any set of aggregates.
-// Engine E4: all 32 presence patterns x sub-chunk contents from {1,2,130 samples} per present slot
+// Engine E4: all 32 presence patterns x sub-chunk contents from {0,1,2,130 samples} per present slot
 // (130 samples give a 2-byte uvarint length), plus float-histogram-free XOR only (what downsampling writes).
 package c39
 
@@ -21,7 +21,8 @@ type Case struct {
 	Sizes   []int  `json:"sizes"`   // index into sampleCounts per aggregate (ignored when absent)
 }
 
-var sampleCounts = []int{1, 2, 130}
+// 0 samples: a present sub-chunk that never got a sample (an empty XOR chunk is 2 bytes) is still present
+var sampleCounts = []int{0, 1, 2, 130}
 
 func mkChunk(n, salt int) chunkenc.Chunk {
 	c := chunkenc.NewXORChunk()
@@ -52,7 +53,7 @@ func gen(r *vlib.R) iter.Seq[Case] {
 func TestCheck(t *testing.T) {
 	r := vlib.New(t, "C39")
 	defer r.Finish()
-	r.Rule("all 32 presence patterns of (count,sum,min,max,counter) x sub-chunk sizes {1,2,130 samples} per present slot; " +
+	r.Rule("all 32 presence patterns of (count,sum,min,max,counter) x sub-chunk sizes {0,1,2,130 samples} per present slot; " +
 		"non-trivial = distinct (pattern,sizes) with at least one absent and one present aggregate")
 	vlib.ForEach(r, gen(r), func(c Case) {
 		var chks [5]chunkenc.Chunk
